@@ -233,7 +233,7 @@ func (d *dbT) genStmt(t *rapid.T) *stmtT {
 		setCols := subsetOf(t, tb.colNames(), nset, nset, "setcols")
 		var exprs []*exprT
 		var parts []string
-		eg := &exprGen{t: t, cols: q.out}
+		eg := g.exprGen(q.out)
 		for _, c := range setCols {
 			e := eg.value(poolOf(c).typ, false)
 			exprs = append(exprs, e)
